@@ -271,26 +271,33 @@ class KeyWorld:
         if wk is None:
             return None
         mat = self.known_material(kind, vi)
-        if kind not in ("aes", "generic", "des3"):
-            return None
-        # make the blob with the token itself from a transient extractable twin (the blob format is judged by C13)
-        t = self.w.C_CreateObject(s=self.s, tpl=T(("CKA_CLASS", "CKO_SECRET_KEY"), ("CKA_KEY_TYPE", self.KT[kind]), ("CKA_VALUE", mat["CKA_VALUE"]),
-                                                 ("CKA_TOKEN", False), ("CKA_PRIVATE", False), ("CKA_EXTRACTABLE", True), ("CKA_SENSITIVE", False)))
+        secret = kind in ("aes", "generic", "des3")
+        cls = "CKO_SECRET_KEY" if secret else "CKO_PRIVATE_KEY"
+        # make the blob with the token itself from a transient extractable twin (the blob format is judged by C13); private keys of every type
+        # too: the library stamps their history attributes on a path of its own
+        ttpl = T(("CKA_CLASS", cls), ("CKA_KEY_TYPE", self.KT[kind]), ("CKA_TOKEN", False), ("CKA_PRIVATE", False), ("CKA_EXTRACTABLE", True), ("CKA_SENSITIVE", False))
+        for n, v in list(mat.get("_pub", {}).items()) + [(n, v) for n, v in mat.items() if n != "_pub"]:
+            ttpl.append(A(n, v))
+        t = self.w.C_CreateObject(s=self.s, tpl=ttpl)
         if t["rv"] != 0:
             return None
-        wr = self.w.C_WrapKey(s=self.s, mech=self.wrap_mech(wk), wkey=wk.handle, key=t["h"], out=256)
+        wr = self.w.C_WrapKey(s=self.s, mech=self.wrap_mech(wk), wkey=wk.handle, key=t["h"], out=8192)
         self.w.C_DestroyObject(s=self.s, o=t["h"])
         if wr["rv"] != K.CKR_OK:
             return None
         blob = wr["out"]["data"]
-        tpl = T(("CKA_CLASS", "CKO_SECRET_KEY"), ("CKA_KEY_TYPE", self.KT[kind]), ("CKA_TOKEN", False), ("CKA_PRIVATE", False))
+        tpl = T(("CKA_CLASS", cls), ("CKA_KEY_TYPE", self.KT[kind]), ("CKA_TOKEN", False), ("CKA_PRIVATE", False))
+        if not secret:
+            extra = [e for e in extra if e[0] not in ("CKA_TRUSTED", "CKA_WRAP")]
         tpl += self.flags_tpl(sens, extr, extra)
         tpl = self.inject(tpl, forb)
         r = self.w.C_UnwrapKey(s=self.s, mech=self.wrap_mech(wk), key=wk.handle, data=blob, tpl=tpl)
         self.forbidden_supplied("C_UnwrapKey", r["rv"], forb)
         if r["rv"] != K.CKR_OK:
             return r["rv"]
-        k = self.register(r["h"], kind, "C_UnwrapKey", {"CKA_VALUE": mat["CKA_VALUE"]})
+        k = self.register(r["h"], kind, "C_UnwrapKey", {n: v for n, v in mat.items() if n != "_pub"})
+        if not secret:
+            self.count("unwrap_private_key_ok")
         got = self.readflags(k.handle)
         k.m = dict(got)
         k.m.update({"CKA_LOCAL": False, "CKA_KEY_GEN_MECHANISM": K.UNAVAILABLE, "CKA_ALWAYS_SENSITIVE": False, "CKA_NEVER_EXTRACTABLE": False})
@@ -629,7 +636,7 @@ def op_strategies():
     s["genpair"] = st.tuples(st.just("genpair"), tri, tri, extra_st, forb_st)
     s["create"] = st.tuples(st.just("create"), st.sampled_from(["aes", "aes", "generic", "des3", "rsa_priv", "ec_priv", "ed_priv", "dsa_priv", "dh_priv"]),
                             st.integers(0, 3), tri, tri, st.booleans(), extra_st, forb_st)
-    s["unwrap"] = st.tuples(st.just("unwrap"), idx, st.sampled_from(["aes", "generic", "des3"]), st.integers(0, 3), tri, tri, extra_st, forb_st)
+    s["unwrap"] = st.tuples(st.just("unwrap"), idx, st.sampled_from(["aes", "generic", "des3", "rsa_priv", "ec_priv", "ed_priv", "dsa_priv", "dh_priv"]), st.integers(0, 3), tri, tri, extra_st, forb_st)
     s["derive"] = st.tuples(st.just("derive"), st.sampled_from(["CKM_CONCATENATE_BASE_AND_KEY", "CKM_CONCATENATE_BASE_AND_DATA", "CKM_CONCATENATE_DATA_AND_BASE",
                                                                "CKM_AES_ECB_ENCRYPT_DATA", "CKM_ECDH1_DERIVE"]), idx, idx, tri, tri, extra_st, forb_st)
     s["copy"] = st.tuples(st.just("copy"), idx, tri, tri, extra_st, forb_st, ro_copy_st)
